@@ -1596,7 +1596,7 @@ def part_kwn_multiphase(ctx, res, steps, three=False, cached=False, loaded=False
         compare_runs(res, d2, base, m, perm, 'phase-order:run-cached', rt_time=1e-6, rt_hist=2e-3)
 
 
-def part_kwn_ternary(ctx, res, steps, seed=None):
+def part_kwn_ternary(ctx, res, steps, seed=None, named_condition=False):
     import kwnruns
     vlib.use_repo()
     from kawin.precipitation import PrecipitateModel, VolumeParameter
@@ -1604,7 +1604,9 @@ def part_kwn_ternary(ctx, res, steps, seed=None):
     r = random.Random(ctx.rng.getrandbits(48) if seed is None else seed)
     x_al, x_cr = r.uniform(0.09, 0.105), r.uniform(0.075, 0.09)
     T = r.uniform(1053, 1093)
-    runs = []
+    runs = []; conds = []
+    # every second pair carries a condition on the solute that is NOT first in one of the listings (Al depletes as gamma' forms)
+    stop_on = (('Al', x_al * r.uniform(0.985, 0.995)) if r.random() < 0.5 else ('Cr', x_cr * r.uniform(0.9, 0.97))) if named_condition else None
     with warnings.catch_warnings():
         warnings.simplefilter('ignore')
         for th, els, x0 in ((A, ['Al', 'Cr'], [x_al, x_cr]), (B, ['Cr', 'Al'], [x_cr, x_al])):
@@ -1617,9 +1619,21 @@ def part_kwn_ternary(ctx, res, steps, seed=None):
             m.setNucleationSite('bulk'); m.setNucleationDensity(bulkN0=1e30)
             m.setThermodynamics(th)
             m.constraints.dtScale = 0.1
+            if stop_on is not None:
+                # a stopping condition that NAMES its solute: it must watch that solute wherever it stands in the list
+                from kawin.precipitation.StoppingConditions import CompositionCondition, Inequality
+                sc = CompositionCondition(Inequality.LESSER_THAN, stop_on[1], element=stop_on[0])
+                m.addStoppingCondition(sc, 'or')
+                conds.append(sc)
             kwnruns.run(m, 3600 * 10, max_steps=steps)
             runs.append(m)
-    desc = dict(part='kwn-ternary', x_AL=x_al, x_CR=x_cr, T=T, steps=steps)
+    desc = dict(part='kwn-ternary', x_AL=x_al, x_CR=x_cr, T=T, steps=steps, stop_on=stop_on)
+    if stop_on is not None:
+        st = [(bool(c.isSatisfied()), float(c.satisfiedTime())) for c in conds]
+        res.count('D:kwn-ternary-named-condition-' + ('met' if st[0][0] else 'not-met'))
+        if st[0][0] != st[1][0] or (st[0][0] and rel(st[0][1], st[1][1]) > 1e-6) or runs[0].pData.n != runs[1].pData.n:
+            res.violate('elem-order:run:named-stopping-condition', 'paired ternary runs with a composition condition naming one solute stop differently when the solutes are listed in the other order',
+                        desc, [st[0], int(runs[0].pData.n)], [st[1], int(runs[1].pData.n)])
     a, b = runs
     res.case(('kwn-ternary', round(x_al, 5), round(T, 2)), bool(a.pData.nucRate[a.pData.n, 0] > 0))
     res.count('D:kwn-ternary-runs', 2); res.traces += 2
@@ -1728,6 +1742,7 @@ def corr(ctx, oracle_only=False, scale=1):
         run_part(ctx, res, 'kwn-multiphase', steps=250, three=True, cached=True)
     t4 = time.time()
     run_part(ctx, res, 'kwn-ternary', steps=ctx.n(25, 200))
+    run_part(ctx, res, 'kwn-ternary', steps=ctx.n(40, 200), named_condition=True)
     run_part(ctx, res, 'diffusion', steps=ctx.n(4, 40))
     run_part(ctx, res, 'homogenization-real', system='FECRNI', steps=ctx.n(0, 3))
     run_part(ctx, res, 'homogenization-real', system='NICRAL', steps=ctx.n(0, 3))
